@@ -216,13 +216,15 @@ def run(prog: Program, rep, thorough: bool) -> None:
             '__ge__': ('nonneg', 'a-b')}
     a, b = A.sym('a'), A.sym('b')
     for name, spec in want.items():
-        owners = [c.name for c in hierarchy if name in c.methods]
+        owners = [c.name for c in hierarchy if name in c.methods or name in c.attrs]
         m = prog.find_method(base, name)
-        if m is None or owners != [base.name]:
+        if owners != [base.name]:
             rep.fail('C13.R2', umod.path, base.node.lineno, base.name, name,
                      f'{name} must be defined once, on AbstractDimension; found on {owners}')
             continue
-        rep.saw(m)
+        if m is not None:
+            rep.saw(m)
+        OPS = {'__eq__': ast.Eq, '__lt__': ast.Lt, '__gt__': ast.Gt, '__le__': ast.LtE, '__ge__': ast.GtE}
         problems = []
         for other_kind in ('number', 'quantity'):
             st = State()
@@ -230,7 +232,8 @@ def run(prog: Program, rep, thorough: bool) -> None:
             other = S('b') if other_kind == 'number' else ev.new_inst(
                 st, dims['Distance'], {MAG: S('b'), DISPLAY: SymObj('u2', C.unit_class(prog))})
             try:
-                r, st = ev.call_value(m, [other], self_val=q, st=st)
+                # through the operator, so that a method bound in the class body to a function object is followed too
+                r = ev.compare(OPS[name](), q, other, st, Ctx(umod, None, None, 0))
             except Undecided as exc:
                 raise AnalysisError(f'{name}: {exc}') from exc
             if not isinstance(r, Cond) or not isinstance(r.a, Const) or not isinstance(r.b, Const):
@@ -247,13 +250,16 @@ def run(prog: Program, rep, thorough: bool) -> None:
             if not good:
                 problems.append(f'vs {other_kind}: {name} decides `{r!r}`; expected the magnitudes a, b compared '
                                 f'with the operator of its name')
-        reads = _self_reads(prog, base, m)
-        if reads - {MAG}:
-            problems.append(f'reads {sorted(reads - {MAG})} besides the magnitude')
+        if m is not None:
+            reads = _self_reads(prog, base, m)
+            if reads - {MAG}:
+                problems.append(f'reads {sorted(reads - {MAG})} besides the magnitude')
+        where_line = m.node.lineno if m is not None else base.node.lineno
         if problems:
-            rep.fail('C13.R2', umod.path, m.node.lineno, m.qualname, name, '; '.join(problems))
+            rep.fail('C13.R2', umod.path, where_line, m.qualname if m is not None else f'{base.name}.{name}', name, '; '.join(problems))
         else:
-            rep.ok('C13.R2', m.where, f'{name}: compares base-unit magnitudes only (vs number and vs quantity)')
+            rep.ok('C13.R2', f'{umod.path}:{where_line}', f'{name}: compares base-unit magnitudes only (vs number and vs quantity; the '
+                   f'two display units are distinct unknowns)')
     ne_owners = [c.name for c in hierarchy if '__ne__' in c.methods]
     if ne_owners:
         rep.fail('C13.R2', umod.path, base.node.lineno, base.name, '__ne__',
@@ -265,12 +271,15 @@ def run(prog: Program, rep, thorough: bool) -> None:
     h = prog.find_method(base, '__hash__')
     eq = prog.find_method(base, '__eq__')
     h_owners = [c.name for c in hierarchy if '__hash__' in c.methods or '__hash__' in c.attrs]
-    if h is None or eq is None:
+    eq_bound = eq is None and '__eq__' in base.attrs       # bound in the class body to a function object: R2 decided what it compares
+    if h is None and '__hash__' in base.attrs:
+        raise AnalysisError('__hash__ is bound in the class body to a function object: what it reads is not traced')
+    if h is None or (eq is None and not eq_bound):
         rep.fail('C13.R3', umod.path, base.node.lineno, base.name, '__hash__',
                  '__hash__ is not defined while __eq__ is: quantities would be unhashable or hash by identity')
     else:
         rep.saw(h)
-        hr, er = _self_reads(prog, base, h), _self_reads(prog, base, eq)
+        hr, er = _self_reads(prog, base, h), ({MAG} if eq_bound else _self_reads(prog, base, eq))
         mutable_after = {DISPLAY}
         extra = hr - er
         if h_owners != [base.name]:
